@@ -126,6 +126,7 @@ def build_items(ctx, plan, per_shape=1, natural=0):
 
     def gen(g):
         g = dict(g)
+        g.pop("sample", None)
         if g.pop("shadow", None):
             g["reqmods"] = ("M1", "M2")
         return generate(ctx, **g)
@@ -134,6 +135,11 @@ def build_items(ctx, plan, per_shape=1, natural=0):
     for g, progs in zip(plan, generated):
         g = dict(g)
         shadow = g.pop("shadow", False)
+        sample = g.pop("sample", None)
+        if sample and len(progs) > sample:      # a seeded sample of a large exhaustive set
+            progs = list(progs)
+            ctx.rng.shuffle(progs)
+            progs = progs[:sample]
         if shadow:      # both same-named globals must occur
             progs = [p for p in progs if {"M1", "M2"} <= {o.get("m") for o in p}]
         tag = g["profile"]
@@ -204,6 +210,7 @@ PLANS = {
                         dict(profile="emptybatch", maxlen=7, maxdepth=5, emptybatch=True),
                         dict(profile="kwargs", maxlen=8, maxdepth=5, require=("NEWOBJ_EX", "SETITEM")),
                         dict(profile="kwdup", maxlen=10, maxdepth=7, require=("NEWOBJ_EX", "DICT")),
+                        dict(profile="eqkeys", maxlen=6, maxdepth=5, sample=3000),
                         dict(profile="mixed", maxlen=14, simulate=120, depth=14, minstop=7, maxdepth=6)],
                   per_shape=1, natural=400),
     "thorough": dict(plan=[dict(profile="calls", maxlen=6), dict(profile="data", maxlen=6),
@@ -214,6 +221,7 @@ PLANS = {
                            dict(profile="emptybatch", maxlen=8, maxdepth=5, emptybatch=True),
                            dict(profile="kwargs", maxlen=9, maxdepth=6, require=("NEWOBJ_EX", "SETITEM")),
                            dict(profile="kwdup", maxlen=11, maxdepth=7, require=("NEWOBJ_EX", "DICT")),
+                           dict(profile="eqkeys", maxlen=7, maxdepth=6, sample=60000),
                            dict(profile="mixed", maxlen=30, simulate=6000, depth=30, minstop=10, maxdepth=8)],
                      per_shape=2, natural=6000),
 }
@@ -311,7 +319,7 @@ def run_family(ctx, prop, clause_of, nontrivial, rule, want=("steps", "dec", "ch
                   distinct_nontrivial=len(nontriv), rule=rule, samples=samples, traces=len(records),
                   assumptions=ASSUME, machinery_errors=mach,
                   extra={"out_of_typed_domain": outdom, "exhaustive": False, "opcode_occurrences": opcount,
-                         "profiles": [f"{g['profile']}:len{g['maxlen']}" + (":simulate" if g.get("simulate") else ":exhaustive")
+                         "profiles": [f"{g['profile']}:len{g['maxlen']}" + (":simulate" if g.get("simulate") else (":exhaustive-sampled" if g.get("sample") else ":exhaustive"))
                                       + (":require=" + "+".join(g["require"]) if g.get("require") else "") for g in P["plan"]]})
 
 
